@@ -214,6 +214,15 @@ func c11Round(phaseIdx int) {
 		verifrt.Assert(post.CanaryStatus.CurrentBatch == want && post.CanaryStatus.CurrentBatchState == v1beta1.UpgradingBatchState, "C01.executor.planChangeRecalculatesWithinPartition")
 		verifrt.Assert(!executed, "C01.executor.planChangePersistedBeforeActing")
 	}
+	// a plan change is marked observed (the status hash moves to the new plan's) only together with the
+	// recalculation it calls for — whatever phase the release was in when the change arrived: the batch cursor is back
+	// within the new partition and the batch starts over.  (The Rollout controller takes hash equality as "the
+	// BatchRelease has caught up with the plan".)
+	if planChanged && post.ObservedReleasePlanHash == util.HashReleasePlanBatches(&release.Spec.ReleasePlan) && post.Phase != v1beta1.RolloutPhaseCompleted && post.Phase != v1beta1.RolloutPhaseFinalizing {
+		verifrt.Cover("plan-change-observed")
+		verifrt.Assert(post.CanaryStatus.CurrentBatchState == v1beta1.UpgradingBatchState || post.CanaryStatus.CurrentBatchState == "", "C11.planChangeObservedOnlyWithRecalculation.state")
+		verifrt.Assert(!hasPartition || post.CanaryStatus.CurrentBatch <= part, "C11.planChangeObservedOnlyWithRecalculation.cursorWithinPartition")
+	}
 	// the workload is only touched (UpgradeBatch) for a batch within the partition
 	if ctrl.called("UpgradeBatch") && hasPartition {
 		verifrt.Assert(pre.CanaryStatus.CurrentBatch <= part || !progressing, "C01.executor.upgradeOnlyWithinPartition")
